@@ -1,40 +1,7 @@
 import DrummerVerif.Lemmas.C13
-/-! C17 prototype: M-API (repaired server.go front-end) over M-DB — malformed requests are refused and no
-    configuration call can make the DB fail-stop -/
+import DrummerVerif.Model.Api
+/-! C17: malformed requests are refused and no configuration call can make the DB fail-stop -/
 namespace Drummer
-
-inductive ApiOut
-  | code (c : Nat)            -- ChangeResponse code decided by the DB (0 OK, 1 SHARD_EXIST, 2 BOOTSTRAPPED)
-  | invalidArgument           -- refused by the service, nothing proposed
-  | crashed (why : String)    -- the replicated DB panicked while applying the proposed command
-  deriving Repr, DecidableEq
-
-def regionsKey : Bytes := "regions-key".toUTF8.toList
-def bootRec : KVRec := { key := bootstrappedKey, value := "true".toUTF8.toList, finalized := true }
-def regionsRec (enc : Bytes) : KVRec := { key := regionsKey, value := enc, finalized := true }
-theorem bootRec_key : bootRec.key.isEmpty = false := by decide +kernel
-theorem bootRec_val : bootRec.value.isEmpty = false := by decide +kernel
-theorem regionsKey_ne : regionsKey.isEmpty = false := by decide +kernel
-
-/-- SubmitChange (repaired: validates before proposing) -/
-def apiSubmitChange (d : DB) (c : ShardDef) : ApiOut × DB :=
-  if c.members.isEmpty || c.appName.isEmpty then (.invalidArgument, d) else
-  match d.apply (.shard c) with
-  | .ok (d', n) => (.code n, d')
-  | .panic w => (.crashed w, d)
-
-/-- SetRegions (repaired); `encoded` is the protobuf encoding of the specification, non-empty when the specification
-    is non-empty -/
-def apiSetRegions (d : DB) (region : List String) (count : List Nat) (encoded : Bytes) : ApiOut × DB :=
-  if region.isEmpty || region.length != count.length || encoded.isEmpty then (.invalidArgument, d) else
-  match d.apply (.kv (regionsRec encoded)) with
-  | .ok (d', n) => (.code (if n = DBKVUpdated ∨ n = DBKVFinalized then 0 else n), d')
-  | .panic w => (.crashed w, d)
-
-def apiSetBootstrapped (d : DB) : ApiOut × DB :=
-  match d.apply (.kv bootRec) with
-  | .ok (d', n) => (.code (if n = DBKVUpdated ∨ n = DBKVFinalized then 0 else n), d')
-  | .panic w => (.crashed w, d)
 
 /-- C17 `malformed_refused`: no members, empty application name, empty or inconsistent region specification are
     answered with an error and leave the DB untouched -/
